@@ -118,6 +118,8 @@ C_Distinct(ev) ==
   (ev.dprev > 0 /\ ev.dprev < l /\ IsHashEv(T[ev.dprev].e) /\ ObservedSuccess(T[ev.dprev]) /\ ObservedSuccess(ev)
      /\ ev.sig = 1 /\ ~SameRequest(T[ev.dprev], ev))
   => T[ev.dprev].out # ev.out
+\* C10: a setting produced by crypt_gensalt* hashes successfully and is kept literally in the hash
+C_Literal(ev) == ev.gs = 1 => (ObservedSuccess(ev) /\ S!StartsWith(ev.out, ev.s))
 \* C14: the handle after crypt_ra
 C_Handle(ev) ==
   ev.e = "crypt_ra" =>
@@ -152,6 +154,7 @@ JudgeHash(ev) ==
               \cup (IF C_RoundTrip(ev) THEN {} ELSE {V("C01", "RoundTrip")})
               \cup (IF C_Distinct(ev) THEN {} ELSE {V("C03", "Distinct")})
               \cup (IF C_Handle(ev) THEN {} ELSE {V("C14", "Handle")})
+              \cup (IF C_Literal(ev) THEN {} ELSE {V("C10", "Literal")})
               \cup (IF AnyFault(ev) /\ ~C_Balanced(ev) THEN {V("C15", "Balanced")} ELSE {})
   IN [viol |-> coreV \cup conc,
       div |-> IF AnyFault(ev) THEN {}
